@@ -158,7 +158,12 @@ def apply_event(w, ev, rng=None):
     name, idx, script = parse_event(ev)
     ch = RandomChooser(rng) if (rng is not None and not script) else ScriptChooser(script)
     w.chooser = ch
-    # NAME~ leaves the rest of its instant pending; it is finished by the settle() that ends the next event's own action
+    # NAME~ leaves the rest of its instant pending.  Only an operator's request (a REST worker thread, the application's
+    # queue) can land inside it: the reactor runs what is queued and due (thread queue, zero-delay and due timed calls)
+    # before it looks at the network again, so any other event first lets it finish.
+    if getattr(w, 'lazy', False) and not (name in ('STOP', 'START', 'SETTLE') or name in REST_SENDS or name in QUEUED):
+        w.lazy = False
+        reactor.settle(ch)
     w.lazy = is_lazy(ev)
     ok = True
     if name == 'ACCEPT':
